@@ -89,6 +89,12 @@ type Exec struct {
 	errorStringType    *types.Named // errors.errorString
 	harnessPkgs        map[*ssa.Package]bool
 	reinit             []*ssa.Package
+	// trackGlobals (harness option reinit_globals): packages of the repository
+	// whose package-level variables were accessed on a path are re-initialised
+	// before the next path, so that state left in globals by the code under test
+	// (registries, lazily set markers) cannot leak from one path into another.
+	trackGlobals bool
+	touched      map[*ssa.Package]bool
 	constCache         map[*ssa.Const]value
 	trace              bool
 	nextObjID          int
@@ -254,6 +260,12 @@ func (ex *Exec) global(g *ssa.Global) *value {
 	}
 	if why, bad := ex.poison[g]; bad && ex.inInit == 0 {
 		panic(engineError{fmt.Sprintf("read of global %s whose initialiser could not be executed: %s", g, why)})
+	}
+	if ex.trackGlobals && ex.inInit == 0 && g.Pkg != nil && strings.HasPrefix(g.Pkg.Pkg.Path(), "github.com/mutagen-io/mutagen") {
+		if ex.touched == nil {
+			ex.touched = make(map[*ssa.Package]bool)
+		}
+		ex.touched[g.Pkg] = true
 	}
 	cell, ok := ex.globals[g]
 	if !ok {
